@@ -155,6 +155,24 @@ def c04_class(case, obs):
             "reordered": str(order != sorted(order)), "features": "+".join(feats) or "none",
             "outcomes": "".join(sorted(set(t[0] for t in out.split(",") if t)))}
 
+def c03_class(case, obs):
+    reqs = case.get("reqs", "-"); rs = [] if reqs == "-" else reqs.split(";")
+    try:
+        notifies = sum(1 for r in rs if r.split("/")[1] == "1")
+    except IndexError:
+        notifies = 0
+    which = obs.get("tcp") or obs.get("ws") or "-"
+    ecs = sorted(set(x.split("/")[1] for x in which.split(";") if x.count("/") == 5)) if which != "-" else []
+    groups = set()
+    for e in ecs:
+        try: v = int(e, 16)
+        except ValueError: continue
+        groups.add("ok" if v == 0 else "protocol" if v in (1, 3, 6) else "body" if v in (4, 5) else "shed" if v == 8 else "panic" if v == 9 else "handler")
+    counts = obs.get("tcpc", obs.get("wsc", ""))
+    ran = any(c not in ("0", "") for c in counts.split("."))
+    return {"len": _len_class(len(rs)), "mw": case.get("mw", "?"), "transports": case.get("tr", "?"), "shed": case.get("sat", "?"),
+            "notifies": str(notifies > 0), "answers": "+".join(sorted(groups)) or "none", "handler_ran": str(ran)}
+
 PROPS = {
     "C01": {
         "harness": "c01", "driver": "c01", "shards": 16,
@@ -247,6 +265,12 @@ PROPS = {
         "classify": c04_class,
         "nontrivial": lambda cls: cls["callers"] != "1" and (cls["reordered"] == "True" or cls["features"] != "none"),
         "rule": "cases = for each client (blocking, async, WebSocket): every permutation of the reply order for n<=4 (quick) / n<=6 (thorough) concurrent callers on clones of one client, each once plain and once with injected unknown-id, duplicate and (WebSocket) notify frames (reusing in-flight and free ids); random orders with unanswered callers for n<=16 / n<=64; batch_json of 1..40 requests answered in a shuffled order; 200 / 2000 model-sampled interleavings of register/write/receive-match/deliver/timeout/cancel for 2-4 callers, forced by parking threads/tasks at the verif-hooks probe points; observation = caller -> (reply tag | timeout | cancel | io error), subscriber tags, sorted request ids seen by the raw server; distinct = distinct case; non-trivial = >1 caller and (reordered replies or an injected/timeout/cancel step)",
+        "timeout_s": {"quick": 900, "thorough": 3400},
+    },
+    "C03": {
+        "harness": "c03", "driver": "c03", "shards": 4, "harness_shards": 8,
+        "classify": c03_class, "nontrivial": lambda cls: cls["handler_ran"] == "True",
+        "rule": "cases = pipelines (quick <=16, thorough <=64 requests) of hand-built frames over the product version {1,0,2,255,100} x query-format code {1,0,2,0xffff,0x101} x UTF-8/non-UTF-8 queries x 15 routes (json, typed, json-ctx, typed-ctx each inline and _blocking, with_handler adapter, typed slice, typed slice ref, erased inline/off-reader, registry mount with two callables, struct mount) and 12 unregistered paths x body-format codes {0,1,2,3,unknown} x body encodings (JSON, BEVE, typed/aligned slices, generic empty array, truncated, garbage, empty, mismatched announcement) x notify byte {0,1,2,0x80,0xff} x middleware refusal, with and without a registered middleware, sent to blocking TCP, async TCP and WebSocket servers; plus WebSocket-only pipelines with panicking off-reader handlers and with the off-reader permit pool (limit 1) held by a gated handler; a hidden sync request ends each pipeline, then a 150 ms grace detects extra frames; distinct = distinct case line; non-trivial = at least one user function ran",
         "timeout_s": {"quick": 900, "thorough": 3400},
     },
 }
